@@ -32,13 +32,16 @@ RULE = ("corridor of free width W between two blocks (horizontal/vertical), m=2.
         "buffer 0/2, fixedSharedPathPenalty 0/110, optional checkpoint in the corridor; 3/4 of the cases wide enough "
         "(W >= (m+1)d). Second family (tags cpmid / cpmid-mirror, appended after the corridor cases): one obstacle, "
         "2-3 S/Z-shaped connectors whose first leg runs through a checkpoint strictly inside it, middle segments "
-        "sharing the channel between obstacle and checkpoints (wide enough by construction), mirrored control. A case is non-trivial if at least two connectors share a collinear stretch before nudging.")
+        "sharing the channel between obstacle and checkpoints (wide enough by construction), mirrored control. Third family (tags endseg-tie / endseg-off): one obstacle, connector A whose first segment "
+        "(free point with a direction, or a shape pin) runs exactly along obstacle edge + buffer, 1-2 connectors wrapping "
+        "the obstacle as c-bends on that line, free side >= (m+1)d+20, all mirror/transpose images, control with A off "
+        "the line. A case is non-trivial if at least two connectors share a collinear stretch before nudging.")
 TRUSTED_BASE = ["Lean 4.33 kernel", "axioms: propext, Classical.choice, Quot.sound", "Lean compiler for the driver",
                 "harness/c10.cpp generator (wide-enough construction) + hex-float import"]
 ASSUMPTIONS = ["integer scene coordinates", "end points are free points (no shapes / pins at the ends)"]
 
 ROOT = Path(__file__).resolve().parent.parent.parent
-DRV_CLASSES = {"C10-opt-final-nudge": "opt-final-nudge", "C10-narrow-sep": "narrow-sep", "C10-cp-disp": "cp-disp",
+DRV_CLASSES = {"C10-opt-final-nudge": "opt-final-nudge", "C10-narrow-sep": "narrow-sep", "C10-cp-disp": "cp-disp", "C10-cp-disp-unify": "cp-disp-unify",
                "C10-lib-assert": "lib-assert"}
 
 
